@@ -42,6 +42,21 @@ ObsOK(views, S2, devs) ==
                    /\ want = -1                       \* trusted count is reported for a key not on this history
                    /\ got = CodeIndex(S2, h, k, devs)
 
+(* Caller-level events (the cache driven through phase0.ProcessDeposit) carry the deposit history of the branch   *)
+(* (state + epochs context) that made the call and the handle its context holds afterwards: that handle must     *)
+(* answer along the branch's own history.                                                                        *)
+IsCaller(e) == "hist" \in DOMAIN e
+BranchOK(e, S2) ==
+  IsCaller(e) =>
+    /\ e.bh \in 1..S2.nh
+    /\ Len(ViewS(S2, e.bh)) >= Len(e.hist)
+    /\ SubSeq(ViewS(S2, e.bh), 1, Len(e.hist)) = e.hist
+CallerCov(e, S, kind) ==
+  IF IsCaller(e)
+  THEN {"callerAdds"} \cup (IF kind = "new" /\ Class(S, e.h, e.i, e.p) = "conflict" THEN {"callerConflictNewHandle"} ELSE {})
+                     \cup (IF Class(S, e.h, e.i, e.p) = "known" THEN {"callerKnownPair"} ELSE {})
+  ELSE {}
+
 RetEq(o, ret) == /\ o.kind = ret.kind
                  /\ o.kind \in {"same", "new"} => o.h2 = ret.h2
 
@@ -52,7 +67,9 @@ Depth(S, h) == IF S.parent[h] = 0 THEN 1 ELSE 1 + Depth(S, S.parent[h])
 
 CovZero == [known |-> 0, append |-> 0, conflictFresh |-> 0, conflictKnownLater |-> 0, beyond |-> 0,
             beyondKnownKey |-> 0, forkFromChild |-> 0, deepLookup |-> 0, appendOnForked |-> 0,
-            parentGrowsAfterFork |-> 0, repeat |-> 0, repeatAtNextIndex |-> 0, repeatForked |-> 0, histories |-> 0, adds |-> 0, maxHandles |-> 0,
+            parentGrowsAfterFork |-> 0, repeat |-> 0, repeatAtNextIndex |-> 0, repeatForked |-> 0,
+            callerAdds |-> 0, callerConflictNewHandle |-> 0, callerKnownPair |-> 0, callerTopUps |-> 0,
+            histories |-> 0, adds |-> 0, maxHandles |-> 0,
             devIndexDelegation |-> 0, devAddDiverges |-> 0, devAddSiblingNoop |-> 0]
 
 Bump(c, names) == [f \in DOMAIN c |-> IF f \in names THEN c[f] + 1 ELSE c[f]]
@@ -96,8 +113,8 @@ TraceAdd ==
   LET e  == Trace[l]
       S  == St
       N  == NormalOutcomes(S, e.h, e.i, e.p, FALSE)
-      c0 == {o \in N : RetEq(o, e.ret) /\ ObsOK(e.views, o.S2, {})}
-      c1 == {o \in N : RetEq(o, e.ret) /\ ObsOK(e.views, o.S2, KnownDeviations)}
+      c0 == {o \in N : RetEq(o, e.ret) /\ ObsOK(e.views, o.S2, {}) /\ BranchOK(e, o.S2)}
+      c1 == {o \in N : RetEq(o, e.ret) /\ ObsOK(e.views, o.S2, KnownDeviations) /\ BranchOK(e, o.S2)}
       dv == CodeOutcome(S, e.h, e.i, e.p, KnownDeviations)
       \* "repeat" answered with a new handle of whatever content: the content is what the code shows for it
       obsOwn == LET pubs == e.views[S.nh + 1].pubs
@@ -118,12 +135,13 @@ TraceAdd ==
           \* well-formed: no key twice, lookups mutually inverse on the view
           /\ NoDupSeq(obsOwn)
           /\ ObsOK(e.views, rf, {}) = TRUE
+          /\ BranchOK(e, rf) = TRUE
           /\ SetSt(rf) /\ dead' = FALSE
           /\ cov' = Bump(cov, CovNames(S, e.h, e.i, e.p, "new", rf))
      ELSE IF c0 # {}
      THEN \* the normal action explains the event
           \E o \in c0 : /\ SetSt(o.S2) /\ dead' = FALSE
-                        /\ cov' = Bump(cov, CovNames(S, e.h, e.i, e.p, o.kind, o.S2))
+                        /\ cov' = Bump(cov, CovNames(S, e.h, e.i, e.p, o.kind, o.S2) \cup CallerCov(e, S, o.kind))
      ELSE IF c1 # {}
      THEN \* normal reply; some ValidatorIndex observation needs Dev_IndexDelegation
           \E o \in c1 : /\ SetSt(o.S2) /\ dead' = FALSE
@@ -149,12 +167,23 @@ TraceAdd ==
           /\ cov' = Bump(cov, CovNames(S, e.h, e.i, e.p, dv.kind, dv.S2) \cup {"devAddSiblingNoop"})
           /\ PrintT(<<"DEV", "AddSiblingNoop", e.job, l>>)
 
+(* no call: the branch's handle (and every other live handle) is looked at after a top-up deposit *)
+TraceObs ==
+  LET e == Trace[l] IN
+  /\ e.ev = "Obs"
+  /\ ~dead
+  /\ ObsOK(e.views, St, {}) = TRUE
+  /\ BranchOK(e, St) = TRUE
+  /\ l' = l + 1
+  /\ cov' = Bump(cov, {"callerTopUps"})
+  /\ UNCHANGED <<nh, parent, trusted, own, dead>> /\ Keep
+
 TraceEnd == /\ l = Len(Trace) + 1
             /\ PrintT(<<"COV", ToJson(cov)>>)
             /\ l' = l + 1
             /\ UNCHANGED <<nh, parent, trusted, own, dead, cov>> /\ Keep
 
-TraceNext == \/ l <= Len(Trace) /\ (TraceReset \/ TraceAdd)
+TraceNext == \/ l <= Len(Trace) /\ (TraceReset \/ TraceAdd \/ TraceObs)
              \/ TraceEnd
 
 TraceSpec == TraceInit /\ [][TraceNext]_tvars
